@@ -48,9 +48,8 @@ def main():
     try:
         from checks import c18_text
         c18_text.run(chk)
-        # c18_text.run_compiled(chk) — written in the last minutes of the continuation session, NOT registered: on the unchanged tree its first clause
-        # fails (STPNT holds 0.8 as 0.800000011920929: parameter literals emitted in single precision under float_precision='float64'), which looks
-        # like a genuine defect of the same kind as the PI constant (fix 48ae1d4) but was not analysed; see DESIGN 6b
+        # the export compiled with f2py and called (its first run on the pinned tree exposed STPNT literals in single precision: fixed in /repo)
+        c18_text.run_compiled(chk)
     except ImportError:
         chk.notes.append("text-level consistency check of the emitted auto-07p files not available in this build")
     rc = chk.finish(
